@@ -155,6 +155,23 @@ CLAIMED = {
          'builders return Ok only after validate; the overlay builder merges (merge_json) and the path setter replaces (set_at_path); the top-level validate covers every overriding sub-struct.'),
    note='Undecided: recursive-merge semantics, get/set inverse, JSON/TOML equivalence (value-level). Trusted base: ' + TRUSTED,
    design='5/C25'),
+ 'C14': dict(
+   technique='full path enumeration of the padders with equality-guard literals + must-pass-through on the re-entry and on every signing flavour',
+   text=('Decides that pad_cose_sig and DataHash::pad_to_size return Ok only on the true outcome of the size equality test (or for no target / via their own recursion), that overshoot exits return Err, '
+         'that the second-pad re-entry resets the first pad and happens once, that update_data_hash pads to the original assertion length, and that every COSE signing flavour returns through pad_cose_sig(box_size).'),
+   note='Undecided: that a suitable pad exists for every ample reserve (value-level; the replayed window C+1..C+262 for COSE padding is a known limitation outside the structural clauses). Trusted base: ' + TRUSTED,
+   design='5/C14'),
+ 'C15': dict(
+   technique='ordering typestate over the length comparison facts on every path to the final composition + def-use of the recorded placeholder length',
+   text=('Decides that Builder::sign_embeddable reaches the final composition, on every data-hash placeholder path, with the signed JUMBF length equal to the recorded placeholder length (shorter is padded, longer returns Err), '
+         'that Builder::placeholder records the length of the very buffer it composes unconditionally on every path, and that the data-hash flavour re-pads through Claim::update_data_hash with its size error propagated.'),
+   note='Undecided: that the patched asset reads back Valid. BMFF (Merkle) placeholders may grow by design. Trusted base: ' + TRUSTED,
+   design='5/C15'),
+ 'C35': dict(
+   technique='type-resolved inventory of short-read-prone calls with generic-instantiation resolution + result-discipline inventory of discarded I/O results',
+   text=('Decides that every raw Read::read/Write::write is a forwarding impl, a count-driven loop, or only ever instantiated on in-memory cursors, and that every discarded I/O Result in the I/O layers is an Option-lookup `.ok()?`, a tested is_ok/is_err whose error outcome returns, or a tabled exception.'),
+   note='Undecided: equality of results under arbitrary chunking. Trusted base: ' + TRUSTED,
+   design='5/C35'),
 }
 
 NA_REASONS = {
